@@ -36,6 +36,15 @@ CLAIMED = {
             'Trusts harness/fakefs.py (file and gzip-framing model), the single-fault model, kill at operation granularity; bounds: earlier content '
             '<=3 bytes (thorough 5), block <=2 (3); page-cache/fsync durability outside the claim.',
             'DESIGN.md 3/C06', 'fault/kill operation index and torn length symbolic, data bytes symbolic'),
+    'C18': ('other',
+            'Bounded symbolic verification of the real WebSession/RedirectTracker, WebProcessorSession, ItemSession, URLItemSource, TriesFilter '
+            'and ResultRule over a scripted stub server: every answer of the server strategy is a symbolic status code (free integer 100..599 '
+            'or a 6-code pool) with Location present/absent/unparsable/self-referencing; the request count per visit is compared with the '
+            'configured limit for every limit value incl. 0; every visit must end with exactly one status update counting one try; the closed '
+            'retry loop must request a perpetually failing URL exactly `tries` times and then leave it alone.',
+            'Trusts the stub HTTP client and stub URL table; hooks disconnected; strategies bounded to 6 symbolic answers, limits 0..3 (quick 0..1), '
+            'tries 1..5 (quick 1..3); tries=0 (unlimited) excluded.',
+            'DESIGN.md 3/C18', 'status codes and limits symbolic integers, server strategy symbolic'),
 }
 
 NOT_APPLICABLE = {
@@ -45,7 +54,7 @@ NOT_APPLICABLE = {
 }
 
 PENDING = {k: 'claimed in DESIGN.md 3 but its check is not built yet at this commit' for k in
-           'C04 C05 C07 C08 C09 C10 C12 C13 C15 C16 C17 C18 C19 C20'.split()}
+           'C04 C05 C07 C08 C09 C10 C12 C13 C15 C16 C17 C19 C20'.split()}
 
 
 def main():
